@@ -172,7 +172,7 @@ func (m *DHCPMsg) CHMAC() MAC {
 
 // ClientID is option 61 or chaddr[:hlen] when absent (RFC 2131 4.2).
 func (m *DHCPMsg) ClientID() string {
-	if d, ok := m.Opt(61); ok {
+	if d, ok := m.Opt(61); ok && len(d) > 0 { // RFC 2131 4.2: without a (usable) client identifier the client is known by chaddr
 		return string(d)
 	}
 	return string(m.CHAddr[:6])
